@@ -82,13 +82,17 @@ theorem flatMap_filterMap_id {α β : Type} (g : α → List β) (l : List (Opti
 
 /-- entries of a general declaration as a function of its non-nil specs -/
 def genEntries (tok : Tok) (l : List Spec) : List Entry :=
-  if tok == .const then constEntries (fun _ => true) l 0 [] else l.flatMap (Spec.entries tok)
+  if tok == .const then constEntries (fun _ => true) l 0 []
+  else if tok == .imp then [] else l.flatMap (Spec.entries tok)
 
 theorem Decl.entries_gen (tok : Tok) (dirs doc) (specs : List (Option Spec)) :
     Decl.entries (.gen tok dirs doc specs) = genEntries tok (specs.filterMap id) := rfl
 
 theorem genEntries_nil (tok : Tok) : genEntries tok [] = [] := by
-  unfold genEntries; split <;> rfl
+  unfold genEntries
+  split
+  · rfl
+  · split <;> rfl
 
 theorem finSpec_value_fst (n : List (Option Name)) (v : List (Option Val)) (d t : List String) (c : List Cm) :
     ((finSpec (some (.value n v d t c))).1 = none ∧ n.filterMap id = []) ∨
@@ -128,8 +132,8 @@ theorem constEntries_fin (specs : List (Option Spec)) : ∀ (iota : Nat) (inh : 
     | none => exact ih iota inh
     | some s =>
       cases s with
-      | type id name dirs sels cms => exact ih (iota + 1) inh
-      | imp i => exact ih (iota + 1) inh
+      | type id name dirs sels cms => exact ih iota inh
+      | imp i => exact ih iota inh
       | value n v d t c =>
         rcases finSpec_value_fst n v d t c with ⟨h1, h2⟩ | ⟨n', v', h1, h2, h3⟩
         · simp only [h1, List.filterMap_cons, id, constEntries, h2, List.isEmpty_nil, if_true]
@@ -157,10 +161,12 @@ theorem genEntries_fin (tok : Tok) (specs : List (Option Spec)) :
   unfold genEntries
   split
   · exact constEntries_fin specs 0 []
-  · rw [flatMap_filterMap_id, flatMap_filterMap_id, flatMap_map']
-    congr 1
-    funext s
-    exact finSpec_entries tok s
+  · split
+    · rfl
+    · rw [flatMap_filterMap_id, flatMap_filterMap_id, flatMap_map']
+      congr 1
+      funext s
+      exact finSpec_entries tok s
 
 theorem finDecl_gen_fst (tok : Tok) (dirs : List String) (doc : List Cm) (specs : List (Option Spec)) :
     ((finDecl (some (.gen tok dirs doc specs))).1 = none ∧
@@ -274,34 +280,31 @@ theorem mapImportsSpec_entries (g : ImportSpec → Option ImportSpec) (tok : Tok
       cases g i <;> rfl
 
 theorem constEntries_mapImports (g : ImportSpec → Option ImportSpec) (keep : Spec → Bool)
-    (specs : List (Option Spec)) :
-    (∀ s ∈ specs, ∀ i, s = some (Spec.imp i) → g i ≠ none) → ∀ (iota : Nat) (inh : List Val),
+    (specs : List (Option Spec)) : ∀ (iota : Nat) (inh : List Val),
     constEntries keep ((specs.map (mapImportsSpec g)).filterMap id) iota inh
       = constEntries keep (specs.filterMap id) iota inh := by
   induction specs with
-  | nil => intro _ _ _; rfl
+  | nil => intro _ _; rfl
   | cons s t ih =>
-    intro h iota inh
-    have ih' := ih (fun s hs => h s (List.mem_cons_of_mem _ hs))
+    intro iota inh
     rw [List.map_cons]
     cases s with
-    | none => exact ih' iota inh
+    | none => exact ih iota inh
     | some s =>
       cases s with
-      | type id name dirs sels cms => exact ih' (iota + 1) inh
+      | type id name dirs sels cms => exact ih iota inh
       | value n v d t c =>
-        simp only [mapImportsSpec, List.filterMap_cons, id, constEntries, ih']
+        simp only [mapImportsSpec, List.filterMap_cons, id, constEntries, ih]
       | imp i =>
-        have hi := h (some (.imp i)) List.mem_cons_self i rfl
         cases hg : g i with
-        | none => exact absurd hg hi
+        | none =>
+          simp only [mapImportsSpec, hg, Option.map_none, List.filterMap_cons, id, constEntries]
+          exact ih iota inh
         | some j =>
           simp only [mapImportsSpec, hg, Option.map_some, List.filterMap_cons, id, constEntries]
-          exact ih' (iota + 1) inh
+          exact ih iota inh
 
-theorem mapImportsDecl_entries (g : ImportSpec → Option ImportSpec) (d : Option Decl)
-    (h : ∀ dirs doc specs, d = some (Decl.gen Tok.const dirs doc specs) →
-      ∀ s ∈ specs, ∀ i, s = some (Spec.imp i) → g i ≠ none) :
+theorem mapImportsDecl_entries (g : ImportSpec → Option ImportSpec) (d : Option Decl) :
     (mapImportsDecl g d).elim [] Decl.entries = d.elim [] Decl.entries := by
   cases d with
   | none => rfl
@@ -312,46 +315,28 @@ theorem mapImportsDecl_entries (g : ImportSpec → Option ImportSpec) (d : Optio
       simp only [mapImportsDecl, Option.elim, Decl.entries_gen]
       unfold genEntries
       split
-      · rename_i htok
-        have htok' : tok = Tok.const := by simpa using htok
-        subst htok'
-        exact constEntries_mapImports g _ specs (h dirs doc specs rfl) 0 []
-      · rw [flatMap_filterMap_id, flatMap_filterMap_id, flatMap_map']
-        congr 1
-        funext s
-        exact mapImportsSpec_entries g tok s
+      · exact constEntries_mapImports g _ specs 0 []
+      · split
+        · rfl
+        · rw [flatMap_filterMap_id, flatMap_filterMap_id, flatMap_map']
+          congr 1
+          funext s
+          exact mapImportsSpec_entries g tok s
 
-/-- general form: inside const groups `g` must not nil an import spec (it would shift `iota`) -/
-theorem entries_mapImports_of (g : ImportSpec → Option ImportSpec) (f : File)
-    (h : ∀ d ∈ f.decls, ∀ dirs doc specs, d = some (Decl.gen Tok.const dirs doc specs) →
-      ∀ s ∈ specs, ∀ i, s = some (Spec.imp i) → g i ≠ none) :
+theorem entries_mapImports (g : ImportSpec → Option ImportSpec) (f : File) :
     entries (mapImports g f) = entries f := by
   unfold entries mapImports
   simp only []
   rw [flatMap_filterMap_id, flatMap_filterMap_id, flatMap_map']
-  apply flatMap_congr'
-  intro d hd
-  exact mapImportsDecl_entries g d (h d hd)
-
-theorem entries_mapImports (g : ImportSpec → Option ImportSpec) (f : File)
-    (hImp : ∀ d ∈ f.decls, ∀ tok dirs doc specs, d = some (Decl.gen tok dirs doc specs) → tok = Tok.const →
-      ∀ s ∈ specs, ∀ i, s ≠ some (Spec.imp i)) :
-    entries (mapImports g f) = entries f :=
-  entries_mapImports_of g f (fun d hd dirs doc specs hdeq s hs i hsi =>
-    absurd hsi (hImp d hd Tok.const dirs doc specs hdeq rfl s hs i))
-
-/-- no hypothesis on the file is needed when `g` never removes an import -/
-theorem entries_mapImports_total (g : ImportSpec → Option ImportSpec) (f : File) (hg : ∀ i, g i ≠ none) :
-    entries (mapImports g f) = entries f :=
-  entries_mapImports_of g f (fun _ _ _ _ _ _ _ _ i _ => hg i)
+  congr 1
+  funext d
+  exact mapImportsDecl_entries g d
 
 theorem entries_augmentOriginalImports (importPath : String) (f : File) :
     entries (augmentOriginalImports importPath f) = entries f := by
   unfold augmentOriginalImports
   split
-  · apply entries_mapImports_total
-    intro i
-    split <;> simp
+  · exact entries_mapImports _ f
   · rfl
 
 /-! ### L4: `pruneImports` keeps the entries -/
@@ -390,10 +375,7 @@ theorem mapImports_comp (g1 g2 : ImportSpec → Option ImportSpec) (f : File) :
   intro d _
   exact mapImportsDecl_comp g1 g2 d
 
-theorem entries_of_isOnlyImports (f : File) (h : isOnlyImports f = true)
-    (hNoType : ∀ d ∈ f.decls, ∀ dirs doc specs, d = some (Decl.gen Tok.imp dirs doc specs) →
-      ∀ s ∈ specs, ∀ id name dirs' sels cms, s ≠ some (Spec.type id name dirs' sels cms)) :
-    entries f = [] := by
+theorem entries_of_isOnlyImports (f : File) (h : isOnlyImports f = true) : entries f = [] := by
   unfold entries
   rw [flatMap_filterMap_id, List.flatMap_eq_nil_iff]
   intro d hd
@@ -407,40 +389,371 @@ theorem entries_of_isOnlyImports (f : File) (h : isOnlyImports f = true)
     | func fn => simp at hd'
     | gen tok dirs doc specs =>
       cases tok with
-      | imp =>
-        simp only [Option.elim, Decl.entries_gen]
-        unfold genEntries
-        rw [if_neg (by decide), flatMap_filterMap_id, List.flatMap_eq_nil_iff]
-        intro s hs
-        cases s with
-        | none => rfl
-        | some s =>
-          cases s with
-          | type id name dirs' sels cms => exact absurd rfl (hNoType _ hd dirs doc specs rfl _ hs id name dirs' sels cms)
-          | value => rfl
-          | imp => rfl
+      | imp => rfl
       | const => simp at hd'
       | type => simp at hd'
       | var => simp at hd'
 
-theorem entries_pruneImports (f : File)
-    (hImp : ∀ d ∈ f.decls, ∀ tok dirs doc specs, d = some (Decl.gen tok dirs doc specs) → tok = Tok.const →
-      ∀ s ∈ specs, ∀ i, s ≠ some (Spec.imp i))
-    (hNoType : ∀ d ∈ f.decls, ∀ dirs doc specs, d = some (Decl.gen Tok.imp dirs doc specs) →
-      ∀ s ∈ specs, ∀ id name dirs' sels cms, s ≠ some (Spec.type id name dirs' sels cms)) :
-    entries (pruneImports f) = entries f := by
+theorem entries_pruneImports (f : File) : entries (pruneImports f) = entries f := by
   simp only [pruneImports]
   split
   · rename_i h
     have h1 : isOnlyImports f = true := by
       simp only [Bool.and_eq_true] at h; exact h.1
-    rw [entries_of_isOnlyImports f h1 hNoType]
+    rw [entries_of_isOnlyImports f h1]
     rfl
   · split
     · rfl
     · split
-      · exact entries_mapImports _ f hImp
+      · exact entries_mapImports _ f
       · rw [entries_finalizeRemovals, mapImports_comp]
-        exact entries_mapImports _ f hImp
+        exact entries_mapImports _ f
+
+/-! ### L5: the imports surviving `pruneImports` -/
+
+theorem filterMap_flatMap' {α β γ : Type} (g : α → List β) (h : β → Option γ) (l : List α) :
+    (l.flatMap g).filterMap h = l.flatMap (fun a => (g a).filterMap h) := by
+  induction l with
+  | nil => rfl
+  | cons a t ih => rw [List.flatMap_cons, List.flatMap_cons, List.filterMap_append, ih]
+
+theorem mapImportsSpec_imports (g : ImportSpec → Option ImportSpec) (s : Option Spec) :
+    Spec.imports (mapImportsSpec g s) = (Spec.imports s).filterMap g := by
+  cases s with
+  | none => rfl
+  | some s =>
+    cases s with
+    | type => rfl
+    | value => rfl
+    | imp i =>
+      simp only [mapImportsSpec, Spec.imports]
+      cases hg : g i <;> simp [hg]
+
+theorem mapImportsDecl_imports (g : ImportSpec → Option ImportSpec) (d : Option Decl) :
+    Decl.imports (mapImportsDecl g d) = (Decl.imports d).filterMap g := by
+  cases d with
+  | none => rfl
+  | some d =>
+    cases d with
+    | func f => rfl
+    | gen tok dirs doc specs =>
+      simp only [mapImportsDecl, Decl.imports]
+      rw [flatMap_map', filterMap_flatMap']
+      congr 1
+      funext s
+      exact mapImportsSpec_imports g s
+
+theorem importsOf_mapImports (g : ImportSpec → Option ImportSpec) (f : File) :
+    importsOf (mapImports g f) = (importsOf f).filterMap g := by
+  unfold importsOf mapImports
+  simp only []
+  rw [flatMap_map', filterMap_flatMap']
+  congr 1
+  funext d
+  exact mapImportsDecl_imports g d
+
+theorem mem_erase {β : Type} (k : String) (m : List (String × β)) (p : String × β) :
+    p ∈ erase k m ↔ p ∈ m ∧ p.1 ≠ k := by
+  unfold erase
+  rw [List.mem_filter]
+  simp
+
+theorem mem_set {β : Type} (k : String) (v : β) (m : List (String × β)) (p : String × β) :
+    p ∈ set k v m ↔ p = (k, v) ∨ (p ∈ m ∧ p.1 ≠ k) := by
+  unfold set
+  rw [List.mem_cons, mem_erase]
+
+theorem mem_foldl_erase {β : Type} (sels : List String) : ∀ (m : List (String × β)) (p : String × β),
+    p ∈ sels.foldl (fun m s => erase s m) m ↔ p ∈ m ∧ p.1 ∉ sels := by
+  induction sels with
+  | nil => intro m p; simp
+  | cons s t ih =>
+    intro m p
+    rw [List.foldl_cons, ih, mem_erase, List.mem_cons]
+    constructor
+    · rintro ⟨⟨h1, h2⟩, h3⟩
+      exact ⟨h1, fun h => h.elim h2 h3⟩
+    · rintro ⟨h1, h2⟩
+      exact ⟨⟨h1, fun h => h2 (Or.inl h)⟩, fun h => h2 (Or.inr h)⟩
+
+/-- one step of `buildUnused` -/
+def unusedStep (m : List (String × Nat)) (i : ImportSpec) : List (String × Nat) :=
+  if importName i = "" then m else set (importName i) i.id m
+
+theorem buildUnused_eq (imps : List ImportSpec) : buildUnused imps = imps.foldl unusedStep [] := rfl
+
+theorem mem_foldl_unusedStep (imps : List ImportSpec) : ∀ (m : List (String × Nat)) (p : String × Nat),
+    ((imps.map importName).filter (· ≠ "")).Nodup →
+    (p ∈ imps.foldl unusedStep m ↔
+      (∃ i ∈ imps, importName i ≠ "" ∧ p = (importName i, i.id)) ∨
+      (p ∈ m ∧ ∀ i ∈ imps, importName i ≠ "" → importName i ≠ p.1)) := by
+  induction imps with
+  | nil => intro m p _; simp
+  | cons i t ih =>
+    intro m p hnd
+    rw [List.foldl_cons]
+    by_cases hn : importName i = ""
+    · have hnd' : ((t.map importName).filter (· ≠ "")).Nodup := by
+        simpa [List.filter_cons, hn] using hnd
+      rw [ih _ p hnd']
+      have hstep : unusedStep m i = m := by unfold unusedStep; rw [if_pos hn]
+      rw [hstep]
+      grind
+    · have hnd2 : importName i ∉ (t.map importName).filter (· ≠ "") ∧
+          ((t.map importName).filter (· ≠ "")).Nodup := by
+        simpa [List.filter_cons, hn] using hnd
+      rw [ih _ p hnd2.2]
+      have hstep : unusedStep m i = set (importName i) i.id m := by unfold unusedStep; rw [if_neg hn]
+      rw [hstep, mem_set]
+      have hfresh : ∀ j ∈ t, importName j ≠ "" → importName j ≠ importName i := by
+        intro j hj hj1 hj2
+        apply hnd2.1
+        rw [List.mem_filter]
+        exact ⟨List.mem_map.mpr ⟨j, hj, hj2⟩, by simpa using hn⟩
+      grind
+
+theorem mem_buildUnused (imps : List ImportSpec) (p : String × Nat)
+    (hnd : ((imps.map importName).filter (· ≠ "")).Nodup) :
+    p ∈ buildUnused imps ↔ ∃ i ∈ imps, importName i ≠ "" ∧ p = (importName i, i.id) := by
+  rw [buildUnused_eq, mem_foldl_unusedStep imps [] p hnd]
+  simp
+
+theorem eq_of_id_eq (imps : List ImportSpec) (hid : (imps.map (·.id)).Nodup) :
+    ∀ i ∈ imps, ∀ j ∈ imps, i.id = j.id → i = j := by
+  induction imps with
+  | nil => intro i hi; cases hi
+  | cons a t ih =>
+    rw [List.map_cons, List.nodup_cons] at hid
+    intro i hi j hj hij
+    rw [List.mem_cons] at hi hj
+    have hnot : ∀ k ∈ t, k.id ≠ a.id := fun k hk hka => hid.1 (List.mem_map.mpr ⟨k, hk, hka⟩)
+    rcases hi with rfl | hi <;> rcases hj with rfl | hj
+    · rfl
+    · exact absurd hij.symm (hnot j hj)
+    · exact absurd hij (hnot i hi)
+    · exact ih hid.2 i hi j hj hij
+
+theorem find_id (imps : List ImportSpec) (hid : (imps.map (·.id)).Nodup) (i : ImportSpec) (hi : i ∈ imps) :
+    imps.find? (·.id == i.id) = some i := by
+  cases hf : imps.find? (·.id == i.id) with
+  | none =>
+    rw [List.find?_eq_none] at hf
+    exact absurd (by simp) (hf i hi)
+  | some j =>
+    have h1 := List.find?_some hf
+    have h2 := List.mem_of_find?_eq_some hf
+    rw [eq_of_id_eq imps hid j h2 i hi (by simpa using h1)]
+
+theorem filterMap_congr' {α β : Type} (f g : α → Option β) (l : List α) (h : ∀ a ∈ l, f a = g a) :
+    l.filterMap f = l.filterMap g := by
+  induction l with
+  | nil => rfl
+  | cons a t ih =>
+    rw [List.filterMap_cons, List.filterMap_cons, h a List.mem_cons_self,
+      ih (fun b hb => h b (List.mem_cons_of_mem _ hb))]
+
+theorem importsOf_pruneImports (f : File)
+    (hNames : (((importsOf f).map importName).filter (· ≠ "")).Nodup)
+    (hIds : ((importsOf f).map (·.id)).Nodup)
+    (hNot : (isOnlyImports f && !hasLinkname f) = false) :
+    importsOf (pruneImports f) = (importsOf f).filterMap (fun i =>
+      if importName i = "" ∨ importName i ∈ fileSels f then some i
+      else if isDirectiveImport f i then some { i with name := some "_" } else none) := by
+  unfold pruneImports
+  rw [if_neg (by rw [hNot]; decide)]
+  extract_lets imps U0 U1 kept keptIds f1 U2 ids
+  have hU1 : ∀ p, p ∈ U1 ↔
+      ∃ i ∈ imps, importName i ≠ "" ∧ p = (importName i, i.id) ∧ importName i ∉ fileSels f := by
+    intro p
+    show p ∈ List.foldl (fun m s => erase s m) (buildUnused imps) (fileSels f) ↔ _
+    rw [mem_foldl_erase, mem_buildUnused imps p hNames]
+    constructor
+    · rintro ⟨⟨i, hi, h1, h2⟩, h3⟩
+      exact ⟨i, hi, h1, h2, by rw [h2] at h3; exact h3⟩
+    · rintro ⟨i, hi, h1, h2, h3⟩
+      exact ⟨⟨i, hi, h1, h2⟩, by rw [h2]; exact h3⟩
+  have hKept : ∀ i ∈ imps, (i.id ∈ keptIds ↔
+      (importName i ≠ "" ∧ importName i ∉ fileSels f) ∧ isDirectiveImport f i = true) := by
+    intro i hi
+    show i.id ∈ List.map (fun x => x.snd) (List.filter _ U1) ↔ _
+    rw [List.mem_map]
+    constructor
+    · rintro ⟨p, hp, hpi⟩
+      rw [List.mem_filter, hU1] at hp
+      obtain ⟨⟨j, hj, h1, h2, h3⟩, h4⟩ := hp
+      have hji : j = i := eq_of_id_eq imps hIds j hj i hi (by rw [h2] at hpi; exact hpi)
+      subst hji
+      rw [h2, find_id imps hIds j hj] at h4
+      exact ⟨⟨h1, h3⟩, by simpa using h4⟩
+    · rintro ⟨⟨h1, h3⟩, h4⟩
+      refine ⟨(importName i, i.id), ?_, rfl⟩
+      rw [List.mem_filter, hU1]
+      refine ⟨⟨i, hi, h1, rfl, h3⟩, ?_⟩
+      rw [find_id imps hIds i hi]
+      simpa using h4
+  have hIdsU2 : ∀ i ∈ imps, (i.id ∈ ids ↔
+      (importName i ≠ "" ∧ importName i ∉ fileSels f) ∧ isDirectiveImport f i = false) := by
+    intro i hi
+    show i.id ∈ List.map (fun x => x.snd) (List.filter _ U1) ↔ _
+    rw [List.mem_map]
+    constructor
+    · rintro ⟨p, hp, hpi⟩
+      rw [List.mem_filter, hU1] at hp
+      obtain ⟨⟨j, hj, h1, h2, h3⟩, h4⟩ := hp
+      have hji : j = i := eq_of_id_eq imps hIds j hj i hi (by rw [h2] at hpi; exact hpi)
+      subst hji
+      have h5 : j.id ∉ keptIds := by rw [h2] at h4; simpa using h4
+      rw [hKept j hj] at h5
+      refine ⟨⟨h1, h3⟩, ?_⟩
+      cases hd : isDirectiveImport f j with
+      | false => rfl
+      | true => exact absurd ⟨⟨h1, h3⟩, hd⟩ h5
+    · rintro ⟨⟨h1, h3⟩, h4⟩
+      refine ⟨(importName i, i.id), ?_, rfl⟩
+      rw [List.mem_filter, hU1]
+      refine ⟨⟨i, hi, h1, rfl, h3⟩, ?_⟩
+      have h5 : i.id ∉ keptIds := by rw [hKept i hi, h4]; simp
+      simpa using h5
+  apply Eq.trans (b := imps.filterMap (fun i =>
+    if importName i = "" ∨ importName i ∈ fileSels f then some i
+    else if isDirectiveImport f i then some { i with name := some "_" } else none)) _ rfl
+  split
+  · rename_i hE
+    have hE' : U1 = [] := by simpa using hE
+    have hpt : ∀ i ∈ imps, some i = (if importName i = "" ∨ importName i ∈ fileSels f then some i
+        else if isDirectiveImport f i then some { i with name := some "_" } else none) := by
+      intro i hi
+      by_cases hc : importName i = "" ∨ importName i ∈ fileSels f
+      · rw [if_pos hc]
+      · have : (importName i, i.id) ∈ U1 := by
+          rw [hU1]; exact ⟨i, hi, fun h => hc (Or.inl h), rfl, fun h => hc (Or.inr h)⟩
+        rw [hE'] at this; cases this
+    rw [← filterMap_congr' _ _ _ hpt, List.filterMap_some]
+  · split
+    · rename_i hE
+      have hE' : U2 = [] := by simpa using hE
+      show importsOf (mapImports _ f) = _
+      rw [importsOf_mapImports]
+      apply filterMap_congr'
+      intro i hi
+      have hk := hKept i hi
+      by_cases hc : importName i = "" ∨ importName i ∈ fileSels f
+      · have : i.id ∉ keptIds := by rw [hk]; grind
+        rw [if_pos hc, if_neg (by simpa using this)]
+      · have hu : importName i ≠ "" ∧ importName i ∉ fileSels f :=
+          ⟨fun h => hc (Or.inl h), fun h => hc (Or.inr h)⟩
+        rw [if_neg hc]
+        cases hd : isDirectiveImport f i with
+        | true =>
+          have : i.id ∈ keptIds := by rw [hk]; exact ⟨hu, hd⟩
+          rw [if_pos (by simpa using this)]; rfl
+        | false =>
+          have : i.id ∈ ids := by rw [hIdsU2 i hi]; exact ⟨hu, hd⟩
+          have : (importName i, i.id) ∈ U2 := by
+            obtain ⟨p, hp, hpi⟩ := List.mem_map.mp this
+            rw [hE'] at hp; cases hp
+          rw [hE'] at this; cases this
+    · show importsOf (finalizeRemovals (mapImports _ (mapImports _ f))) = _
+      rw [importsOf_finalizeRemovals, mapImports_comp, importsOf_mapImports]
+      apply filterMap_congr'
+      intro i hi
+      have hk := hKept i hi
+      have hu2 := hIdsU2 i hi
+      by_cases hc : importName i = "" ∨ importName i ∈ fileSels f
+      · have h1 : i.id ∉ keptIds := by rw [hk]; grind
+        have h2 : i.id ∉ ids := by rw [hu2]; grind
+        rw [if_pos hc, if_neg (by simpa using h1)]
+        simp only [Option.bind_some]
+        rw [if_neg (by simpa using h2)]
+      · have hu : importName i ≠ "" ∧ importName i ∉ fileSels f :=
+          ⟨fun h => hc (Or.inl h), fun h => hc (Or.inr h)⟩
+        rw [if_neg hc]
+        cases hd : isDirectiveImport f i with
+        | true =>
+          have h1 : i.id ∈ keptIds := by rw [hk]; exact ⟨hu, hd⟩
+          have h2 : i.id ∉ ids := by rw [hu2, hd]; simp
+          rw [if_pos (by simpa using h1)]
+          simp only [Option.bind_some]
+          rw [if_neg (by simpa using h2)]; rfl
+        | false =>
+          have h1 : i.id ∉ keptIds := by rw [hk, hd]; simp
+          have h2 : i.id ∈ ids := by rw [hu2]; exact ⟨hu, hd⟩
+          rw [if_neg (by simpa using h1)]
+          simp only [Option.bind_some]
+          rw [if_pos (by simpa using h2)]; rfl
+
+
+theorem importsOf_pruneImports_only (f : File) (h : (isOnlyImports f && !hasLinkname f) = true) :
+    importsOf (pruneImports f) = [] := by
+  unfold pruneImports
+  rw [if_pos h]
+  rfl
+
+/-! ### constant groups whose specs do not depend on `iota` or on the inherited expression list -/
+
+theorem getElem?_map_iotaFree (vs : List Val) (h : ∀ v ∈ vs, v.a = 0) (i j k : Nat) :
+    (vs[k]?).map (fun v => v.a * i + v.b) = (vs[k]?).map (fun v => v.a * j + v.b) := by
+  cases hk : vs[k]? with
+  | none => rfl
+  | some v =>
+    have hv : v.a = 0 := h v (List.mem_of_getElem? hk)
+    simp only [Option.map_some, hv, Nat.zero_mul]
+
+/-- every value spec is either about to be squeezed away (no names left) or carries its own non-empty
+expression list, and none of its expressions mentions `iota` -/
+def Spec.iotaFree : Spec → Prop
+  | .value names values _ _ _ =>
+    (names.filterMap id = [] ∨ values.filterMap id ≠ []) ∧ ∀ v ∈ values.filterMap id, v.a = 0
+  | _ => True
+
+theorem constEntries_noIota_of (keep : Spec → Bool) (specs : List Spec) :
+    (∀ s ∈ specs, s.iotaFree) → ∀ (i j : Nat) (inh inh' : List Val),
+    constEntries keep specs i inh = constEntries keep specs j inh' := by
+  induction specs with
+  | nil => intro _ _ _ _ _; rfl
+  | cons s t ih =>
+    intro h i j inh inh'
+    have ih' := ih (fun s hs => h s (List.mem_cons_of_mem _ hs))
+    have hs := h s List.mem_cons_self
+    cases s with
+    | type id name dirs sels cms => exact ih' i j inh inh'
+    | imp imp => exact ih' i j inh inh'
+    | value n v d ts c =>
+      obtain ⟨h1, h2⟩ := hs
+      simp only [constEntries]
+      by_cases hn : (n.filterMap id).isEmpty = true
+      · rw [if_pos hn, if_pos hn]; exact ih' i j inh inh'
+      · have hv : ¬ (v.filterMap id).isEmpty = true := by
+          rcases h1 with h1 | h1
+          · rw [h1] at hn; exact absurd rfl hn
+          · simpa using h1
+        rw [if_neg hn, if_neg hn]
+        simp only [if_neg hv]
+        rw [ih' (i + 1) (j + 1) (v.filterMap id) (v.filterMap id)]
+        congr 2
+        apply List.map_congr_left
+        intro p _
+        rw [getElem?_map_iotaFree (v.filterMap id) h2 i j p.2]
+
+theorem constEntries_noIota (keep : Spec → Bool) (specs : List Spec)
+    (h : ∀ s ∈ specs, match s with
+      | .value names values _ _ _ =>
+        (values.filterMap id).length = (names.filterMap id).length ∧ (names.filterMap id) ≠ [] ∧
+          ∀ v ∈ values.filterMap id, v.a = 0
+      | _ => True)
+    (i j : Nat) (inh inh' : List Val) :
+    constEntries keep specs i inh = constEntries keep specs j inh' := by
+  apply constEntries_noIota_of keep specs
+  intro s hs
+  have hs' := h s hs
+  cases s with
+  | type => trivial
+  | imp => trivial
+  | value n v d ts c =>
+    obtain ⟨h1, h2, h3⟩ := hs'
+    refine ⟨Or.inr ?_, h3⟩
+    intro hv
+    rw [hv] at h1
+    exact h2 (List.length_eq_zero_iff.mp h1.symm)
 
 end GV.Augment
